@@ -25,6 +25,7 @@ class Provenance:
         self.fn = fn
         self.params = set(fn.params)
         self.defs: Dict[str, List[ast.AST]] = {}
+        self.tuple_bound: Set[str] = set()  # names bound by unpacking a component of a composite value
         skip: Set[int] = set()
         for ex in exclude or []:
             for x in ast.walk(ex):
@@ -49,6 +50,10 @@ class Provenance:
                 self._bind(n.target, n.iter)
             elif isinstance(n, ast.NamedExpr):
                 self._bind(n.target, n.value)
+            elif isinstance(n, ast.Call) and isinstance(n.func, ast.Attribute) and isinstance(n.func.value, ast.Name) \
+                    and n.func.attr in ("append", "extend", "add", "insert", "update") and n.args:
+                # container mutation: the container is (also) derived from what is put into it
+                self.defs.setdefault(n.func.value.id, []).append(n.args[-1])
         # nested function definitions: calls to them are inlined (roots of their return expressions)
         self.nested_params: Set[str] = set()
         self.nested_defs: Dict[str, ast.AST] = {}
@@ -63,11 +68,16 @@ class Provenance:
     def _bind(self, target: ast.AST, value: ast.AST) -> None:
         if isinstance(target, ast.Name):
             self.defs.setdefault(target.id, []).append(value)
+        elif isinstance(target, ast.Subscript) and isinstance(target.value, ast.Name):
+            self.defs.setdefault(target.value.id, []).append(value)  # x[i] = v / x[a:b] = v: x is (also) derived from v
         elif isinstance(target, (ast.Tuple, ast.List)):
             for i, el in enumerate(target.elts):
                 if isinstance(value, (ast.Tuple, ast.List)) and len(value.elts) == len(target.elts):
                     self._bind(el, value.elts[i])
                 else:
+                    for x in ast.walk(el):
+                        if isinstance(x, ast.Name):
+                            self.tuple_bound.add(x.id)
                     self._bind(el, value)
         elif isinstance(target, ast.Starred):
             self._bind(target.value, value)
